@@ -351,6 +351,62 @@ CHECKS = {
 NOT_BUILT = "check not built yet in this session (design in DESIGN.md section 3)"
 
 
+
+# additions made after the first build (appended to the level text)
+ADDED = {
+    "C01": "Also: a falsy seed, arguments without any value, the caller's own "
+           "combos / constants objects swept twice (second sweep judged) and "
+           "grids of 81-1024 settings under every strategy.",
+    "C02": "Also: the same request through a long-lived Runner that ran with "
+           "another argument order before, and integer-array results.",
+    "C03": "Also: falsy constants / attributes, declared argument order "
+           "different from the signature, and the caller's same case dicts "
+           "swept twice.",
+    "C04": "Also: crops of 101-128 batches; the BFS state includes whether "
+           "the long-lived Crop object took part.",
+    "C05": "Also: a second long-lived Harvester, a lazily loading (chunks) "
+           "Harvester, ellipsis combos through one re-used dict, and the "
+           "dataset replaced by one without variables.",
+    "C06": "Also: constants given at sow time (including falsy overrides), "
+           "another session harvesting into the file between sow and reap, an "
+           "earlier complete round through the same Crop object, a shuffle "
+           "given to the constructor, falsy constants / resources / attrs.",
+    "C07": "Also: cases x sub-grid through sow_cases, falsy constants, the "
+           "farmer's constants changed and the same Crop sown again, a re-sow "
+           "with exactly one batch less work (refused or right), crops of "
+           "101-257 batches.",
+    "C08": "Also: finished results damaged from outside followed by check_bad, "
+           "another session sowing another function over the empty crop, and "
+           "crops of 12 and 101 batches with a sparser alphabet (bounded "
+           "depth).",
+    "C09": "Also: crops of 11-101 batches, integer / non-square / 3-d array "
+           "results, and the same long-lived Crop sown again with another "
+           "last batch.",
+    "C10": "The recovery re-runs the user's sow script (default autoload) "
+           "instead of a forgiving fallback; a scenario with a short last "
+           "batch was added.",
+    "C12": "Also: failure and retry through one long-lived session, results "
+           "shorter / longer than their batch (surplus entries that are falsy, "
+           "bool results whose last value is False).",
+    "C13": "Also: unlabelled internal dimensions and sequences of "
+           "parse_into_cases queries (same arguments twice, fewer parameters "
+           "next).",
+    "C14": "Also: a second dataset saved under the same name (the one loaded "
+           "before must keep its contents).",
+    "C15": "Also: long-lived Crop objects sown repeatedly, per-sow constants "
+           "overriding the Runner's, a long-lived list-choice Sampler with "
+           "per-run overrides; the state includes the live objects.",
+    "C16": "Also: B = 12 (two-digit ids) with selected subsets / selections.",
+    "C17": "Also: every stored dimension order, missing error values, z = 0.",
+    "C18": "Also: every stored dimension order and reordered sub-selections "
+           "as explicit orders.",
+    "C19": "Also: samples of 33-500 values in every two-chunk split, "
+           "estimates at scales 100 and 0.01; successor states are copies of "
+           "the real objects and every intermediate matrix state is read.",
+    "C20": "Also: exponents where the printed width changes (+-99/100/101) "
+           "and the ends of the float range.",
+}
+
 def main():
     props = [json.loads(l) for l in open(os.path.join(VERIF, "properties.jsonl"))]
     checks, na = [], []
@@ -360,6 +416,8 @@ def main():
             os.path.join(VERIF, "xv", "props", pid.lower() + ".py")
         ):
             cat, tech, text, note, ref = CHECKS[pid]
+            if pid in ADDED:
+                text = text + " " + ADDED[pid]
             checks.append({
                 "property_id": pid,
                 "quick_cmd": "%s -m xv check %s --tier quick" % (PY, pid),
